@@ -86,10 +86,13 @@ pub struct Case {
     pub compressed: bool,
     pub cap: usize,
     pub min_bytes: u64,
+    /// Some(n): the session is exactly n bytes of TINY_PING frames (n a multiple of 4), then end of stream
+    pub exact: Option<u64>,
 }
 
 impl Case {
     pub fn label(&self) -> String {
+        if let Some(n) = self.exact { return format!("{}#{}#exactly-{n}-bytes-then-end-of-stream", if self.tokio { "tokio" } else { "blocking" }, if self.compressed { "compressed" } else { "uncompressed" }); }
         format!("{}#{}#{}#{}-bytes", if self.tokio { "tokio" } else { "blocking" }, if self.compressed { "compressed" } else { "uncompressed" },
             if self.cap == 0 { "reads-as-asked".to_string() } else { format!("reads-of-{}", self.cap) }, self.min_bytes)
     }
@@ -98,10 +101,10 @@ impl Case {
 /// Ok(frames received) or Err(what went wrong at which frame).
 pub fn run(case: &Case) -> Result<u64, String> {
     let codec = Codec::new(mode_of(case.compressed));
-    let frames: Vec<Vec<u8>> = cycle(case.compressed).iter().map(|p| codec.encode(p).map(|b| b.to_vec()).map_err(|e| format!("MACHINERY encode {e:?}"))).collect::<Result<_, _>>()?;
+    let frames: Vec<Vec<u8>> = if case.exact.is_some() { vec![vec![if case.compressed { 1 } else { 4 }, 3, 5, 3]] } else { cycle(case.compressed).iter().map(|p| codec.encode(p).map(|b| b.to_vec()).map_err(|e| format!("MACHINERY encode {e:?}"))).collect::<Result<_, _>>()? };
     let pattern: Vec<u8> = frames.concat();
     let plen = pattern.len();
-    let cycles = case.min_bytes / plen as u64 + 2;
+    let cycles = if let Some(n) = case.exact { n / plen as u64 } else { case.min_bytes / plen as u64 + 2 };
     let total = cycles * plen as u64;
     let mut pat2 = vec![];
     while pat2.len() < 65536 + plen { pat2.extend_from_slice(&pattern); }
@@ -153,13 +156,16 @@ pub fn cases(thorough: bool) -> Vec<Case> {
     let min_bytes = if thorough { (1u64 << 32) + (1 << 20) } else { (1u64 << 24) + (1 << 16) };
     for tokio in [false, true] {
         for compressed in [true, false] {
-            out.push(Case { tokio, compressed, cap: 0, min_bytes });
+            out.push(Case { tokio, compressed, cap: 0, min_bytes, exact: None });
             // 2^16 frames-worth is also passed with small reads: the count of READS grows past 2^16 / 2^24 too
-            out.push(Case { tokio, compressed, cap: 7, min_bytes: if thorough { (1 << 28) + 4096 } else { (1 << 22) + 4096 } });
+            out.push(Case { tokio, compressed, cap: 7, min_bytes: if thorough { (1 << 28) + 4096 } else { (1 << 22) + 4096 }, exact: None });
             // one and two bytes per read all the way: every frame (1012 bytes among them) takes as many reads as it has
             // bytes - the search, merging states on the buffer contents, only ever executes the shortest way to each
-            out.push(Case { tokio, compressed, cap: 1, min_bytes: if thorough { (1 << 24) + 4096 } else { (1 << 20) + 4096 } });
-            out.push(Case { tokio, compressed, cap: 2, min_bytes: if thorough { (1 << 24) + 4096 } else { (1 << 20) + 4096 } });
+            out.push(Case { tokio, compressed, cap: 1, min_bytes: if thorough { (1 << 24) + 4096 } else { (1 << 20) + 4096 }, exact: None });
+            out.push(Case { tokio, compressed, cap: 2, min_bytes: if thorough { (1 << 24) + 4096 } else { (1 << 20) + 4096 }, exact: None });
+            // sessions of an exact size - every power of two from 1 KiB to 1 MiB, the multiples of the 6120-byte buffer, each
+            // +- one frame - delivered as fast as the connection asks, then end of stream: a scratch buffer that fills exactly
+            for n in [1024u64, 2048, 4096, 6120, 8192, 12240, 16384, 18360, 24576, 32768, 65536, 131072, 1 << 20] { for d in [-4i64, 0, 4] { out.push(Case { tokio, compressed, cap: 0, min_bytes: 0, exact: Some((n as i64 + d) as u64) }); } }
         }
     }
     out
